@@ -39,15 +39,41 @@ func c12place(content []byte, before [][]byte, readerFirst bool) (*parsley.FileS
 	if c12far > 0 && len(before) > 0 {
 		fs.AddFile(gram.Filler("far", c12far, 'y')) // the placed copy lies beyond a large file (64 KiB ... 2^40 bytes)
 	}
-	for i, b := range before {
-		fs.AddFile(text.NewFile(fmt.Sprintf("other%d", i), b))
-	}
-	f := text.NewFile("f", content)
+	f := gram.NewFileFrom("f", content)
 	var rd *text.Reader
 	if readerFirst {
 		rd = text.NewReader(f)
 	}
-	fs.AddFile(f)
+	n := 0
+	for _, b := range before {
+		n += len(b)
+	}
+	switch mode := (n + len(content)) % 3; {
+	case mode == 0 || len(before) == 0 || c12far > 0:
+		for i, b := range before {
+			fs.AddFile(text.NewFile(fmt.Sprintf("other%d", i), b))
+		}
+		fs.AddFile(f)
+	default:
+		// the other files are handed over as a list (NewFileSet(list...)), the parsed file is added afterwards, and the
+		// caller goes on using its list: a second set is built from the same list and extended (mode 1), or the list is
+		// overwritten (mode 2). The first set must have its own file table.
+		list := make([]parsley.File, 0, len(before)+3)
+		for i, b := range before {
+			list = append(list, text.NewFile(fmt.Sprintf("other%d", i), b))
+		}
+		fs = parsley.NewFileSet(list...)
+		fs.AddFile(f)
+		stranger := text.NewFile("stranger", []byte("a file of another set\nwith two lines"))
+		if mode == 1 {
+			fs2 := parsley.NewFileSet(list...)
+			fs2.AddFile(stranger)
+		} else {
+			for i := range list {
+				list[i] = stranger
+			}
+		}
+	}
 	if !readerFirst {
 		rd = text.NewReader(f)
 	}
@@ -398,7 +424,7 @@ func init() {
 		},
 		Exec: c12exec,
 		Finish: func(tier string, a *run.Acc, cov map[string]any) string {
-			cov["rule"] = "case = one content parsed twice with fresh contexts: alone in its file set (base 1) and preceded by 1-8 random files (lengths 0-59, CR/LF/CRLF inside), one case in 8 beyond an additional file of 64 KiB ... 2^40 bytes (real up to 2 MiB, contentless parsley.File beyond). " +
+			cov["rule"] = "case = one content parsed twice with fresh contexts: alone in its file set (base 1) and preceded by 1-8 random files (lengths 0-59, CR/LF/CRLF inside; added one by one, or handed over as a list that the caller then reuses for a second set or overwrites), one case in 8 beyond an additional file of 64 KiB ... 2^40 bytes (real up to 2 MiB, contentless parsley.File beyond). " +
 				"Workloads: JSON example (valid and corrupted documents, Evaluate), left-recursive arithmetic (values and division-by-zero errors), trimmed token sequences, every literal parser at every offset, " +
 				"random and mutual-left-recursive grammars (curtailment uses Remaining). Compared: tree rendering relative to the base, values, full error texts (file:line:column), context error position relative to the base, " +
 				"absolute root positions shifted by exactly the base difference, and CallCount. non-trivial = a comparison that ran to completion on a non-empty content; distinct = (content, placement)"
